@@ -61,6 +61,10 @@ type c05Spec struct {
 	K     int    `json:"k"`
 	Pad   int    `json:"pad"`
 	Empty bool   `json:"empty,omitempty"`
+	// Runs, when set, fixes the layout: comma-separated run lengths (in shares) of consecutive namespaces from the start
+	// of the square, the rest is tail padding (Pad = K*K - sum). Used for the wide squares whose namespaces span a chosen
+	// number of rows (16, 17, well over 16).
+	Runs string `json:"runs,omitempty"`
 }
 
 type c05Block struct {
@@ -76,6 +80,8 @@ type c05Block struct {
 	dict    map[string]uint64
 	rdict   map[string]uint64
 	queries []libshare.Namespace
+	nss     []libshare.Namespace // the namespaces present in the square (tail padding excluded), in square order
+	wide    bool                 // a wide square with a designed layout (spec.Runs): targeted reads, see wideReads
 }
 
 var c05TailBytes = func() []byte { sh := libshare.TailPaddingShare(); return sh.ToBytes() }()
@@ -259,6 +265,83 @@ func c05MakeShares(rng *zv.Rand, k, pad int) ([][]byte, []libshare.Namespace) {
 	return out, nss
 }
 
+// c05ParseRuns reads c05Spec.Runs.
+func c05ParseRuns(runs string) ([]int, int, error) {
+	var out []int
+	sum := 0
+	for _, f := range strings.Split(runs, ",") {
+		var n int
+		if _, err := fmt.Sscanf(f, "%d", &n); err != nil || n <= 0 {
+			return nil, 0, fmt.Errorf("bad run list %q", runs)
+		}
+		out = append(out, n)
+		sum += n
+	}
+	return out, sum, nil
+}
+
+// c05MakeSharesRuns builds k*k namespace-ordered shares: one distinct namespace per run, then tail padding.
+func c05MakeSharesRuns(rng *zv.Rand, k int, runs []int) ([][]byte, []libshare.Namespace) {
+	total := k * k
+	seen := map[string]bool{}
+	var nss []libshare.Namespace
+	for len(nss) < len(runs) {
+		id := make([]byte, 10)
+		id[8], id[9] = byte(1+rng.Intn(250)), byte(rng.Intn(256))
+		ns := libshare.MustNewV0Namespace(id)
+		if !seen[string(ns.Bytes())] {
+			seen[string(ns.Bytes())] = true
+			nss = append(nss, ns)
+		}
+	}
+	sort.Slice(nss, func(i, j int) bool { return nss[i].IsLessThan(nss[j]) })
+	out := make([][]byte, 0, total)
+	for i, ns := range nss {
+		for j := 0; j < runs[i]; j++ {
+			raw := make([]byte, libshare.ShareSize)
+			copy(raw, ns.Bytes())
+			copy(raw[libshare.NamespaceSize:], rng.Bytes(24))
+			raw[libshare.ShareSize-2], raw[libshare.ShareSize-1] = byte(len(out)>>8), byte(len(out))
+			out = append(out, raw)
+		}
+	}
+	for len(out) < total {
+		out = append(out, append([]byte{}, c05TailBytes...))
+	}
+	return out, nss
+}
+
+// nsRows: the ODS rows that hold at least one share of ns.
+func (b *c05Block) nsRows(ns []byte) []int {
+	var rows []int
+	for i := 0; i < b.k; i++ {
+		for j := 0; j < b.k; j++ {
+			if bytes.Equal(b.nsOf(i*b.k+j), ns) {
+				rows = append(rows, i)
+				break
+			}
+		}
+	}
+	return rows
+}
+
+// c05RowsBucket: histogram bucket for a number of rows; the interesting boundary is 16 (see seeded change C11-c).
+func c05RowsBucket(n int) string {
+	switch {
+	case n == 0:
+		return "0"
+	case n <= 8:
+		return "1-8"
+	case n < 16:
+		return "9-15"
+	case n == 16:
+		return "16"
+	case n == 17:
+		return "17"
+	}
+	return ">17"
+}
+
 func c05NewBlock(spec c05Spec, num int) (*c05Block, error) {
 	b := &c05Block{spec: spec, num: num, dict: map[string]uint64{}, rdict: map[string]uint64{}}
 	var nss []libshare.Namespace
@@ -270,7 +353,16 @@ func c05NewBlock(spec c05Spec, num int) (*c05Block, error) {
 	} else {
 		rng := zv.NewRand(spec.Seed)
 		b.k = spec.K
-		b.ods, nss = c05MakeShares(rng, spec.K, spec.Pad)
+		if spec.Runs != "" {
+			runs, sum, err := c05ParseRuns(spec.Runs)
+			if err != nil || sum > spec.K*spec.K || spec.K*spec.K-sum != spec.Pad {
+				return nil, fmt.Errorf("c05: inconsistent layout %+v (%v)", spec, err)
+			}
+			b.ods, nss = c05MakeSharesRuns(rng, spec.K, runs)
+			b.wide = true
+		} else {
+			b.ods, nss = c05MakeShares(rng, spec.K, spec.Pad)
+		}
 		e, err := rsmt2d.ComputeExtendedDataSquare(b.ods, share.DefaultRSMT2DCodec(), wrapper.NewConstructor(uint64(spec.K)))
 		if err != nil {
 			return nil, err
@@ -304,6 +396,7 @@ func c05NewBlock(spec c05Spec, num int) (*c05Block, error) {
 	qs = append(qs, libshare.MustNewV0Namespace([]byte{0, 0, 0, 0, 0, 0, 0, 0, 1, 0}), libshare.MustNewV0Namespace(bytes.Repeat([]byte{0xff}, 10)),
 		libshare.PayForBlobNamespace, libshare.PrimaryReservedPaddingNamespace, libshare.TailPaddingNamespace, libshare.ParitySharesNamespace)
 	b.queries = qs
+	b.nss = nss
 	return b, nil
 }
 
@@ -404,6 +497,9 @@ type c05Ctx struct {
 	t    *testing.T
 	ctx  context.Context
 	hist []c05Read // every read issued so far against the current (block, representation, layer), the current one last
+	// l3only, when set, says which histories are checked by the implementation oracle only (no Coq case): the model
+	// evaluation of a wide square costs seconds per case where the parity quadrants are needed
+	l3only func(b *c05Block, rep, layer string) bool
 }
 
 func (c *c05Ctx) viol(b *c05Block, e *c05Env, rd c05Read, class, msg string) {
@@ -595,12 +691,34 @@ func (c *c05Ctx) do(b *c05Block, e *c05Env, rd c05Read) string {
 				rows[i] = b.idsOf(nd[i].Shares)
 			}
 			obs = "ORows " + c05Rows(rows)
+			c.r.Count("nd_rows", c05RowsBucket(len(nd)))
 			var want [][]byte
 			for i := 0; i < k; i++ {
 				want = append(want, b.rowShares(rd.Ns, i)...)
 			}
+			// row by row: one entry per row whose root range contains the namespace, in row order, each holding that
+			// row's shares of the namespace (a namespace spanning many rows must not lose or reorder any of them)
+			var wantRows []int
+			if valid {
+				for i := 0; i < k; i++ {
+					if b.rowRangeContains(rd.Ns, i) {
+						wantRows = append(wantRows, i)
+					}
+				}
+			}
 			if !c05SharesEq(nd.Flatten(), want) {
-				c.viol(b, e, rd, "wrong-read", "namespace data differs from the shares of that namespace in the square")
+				c.viol(b, e, rd, "wrong-read", fmt.Sprintf("namespace data differs from the shares of that namespace in the square (%d rows served, the namespace is within the range of %d rows)", len(nd), len(wantRows)))
+			} else if valid && len(nd) != len(wantRows) {
+				c.viol(b, e, rd, "wrong-read", fmt.Sprintf("namespace data has %d rows, the namespace is within the range of %d rows", len(nd), len(wantRows)))
+			} else if bad := func() int {
+				for i := range wantRows {
+					if valid && !c05SharesEq(nd[i].Shares, b.rowShares(rd.Ns, wantRows[i])) {
+						return i
+					}
+				}
+				return -1
+			}(); bad >= 0 {
+				c.viol(b, e, rd, "wrong-read", fmt.Sprintf("namespace data entry %d does not hold the shares of row %d", bad, wantRows[bad]))
 			} else if valid {
 				if err := nd.Verify(b.roots, ns); err != nil {
 					c.viol(b, e, rd, "unverifiable", "namespace data does not verify: "+err.Error())
@@ -831,6 +949,35 @@ func (b *c05Block) reads(rng *zv.Rand, exhaustive bool, budget int, plain bool) 
 	return out
 }
 
+// wideReads: the requests for a wide square with a designed layout. Namespace data for every namespace worth asking
+// for (present ones spanning 16 / 17 / many more rows, neighbours, extremes, reserved), row namespace data at the rows
+// where each present namespace begins and ends and around its 16th row, plus a sample of everything else.
+func (b *c05Block) wideReads(rng *zv.Rand, budget int, plain bool) []c05Read {
+	var out []c05Read
+	for _, ns := range b.queries {
+		if plain && ns.ValidateForData() != nil {
+			continue
+		}
+		out = append(out, c05Read{Kind: "nd", Ns: ns.Bytes()})
+	}
+	for _, ns := range b.nss {
+		rows := b.nsRows(ns.Bytes())
+		seen := map[int]bool{}
+		for _, x := range []int{0, 15, 16, 17, len(rows) - 1, rng.Intn(len(rows))} {
+			if x >= 0 && x < len(rows) && !seen[rows[x]] {
+				seen[rows[x]] = true
+				out = append(out, c05Read{Kind: "rownd", I: rows[x], Ns: ns.Bytes()})
+			}
+		}
+	}
+	out = append(out, b.reads(rng, false, budget, plain)...)
+	for i := len(out) - 1; i > 0; i-- {
+		j := rng.Intn(i + 1)
+		out[i], out[j] = out[j], out[i]
+	}
+	return out
+}
+
 // history runs the reads in chunks; every chunk is one history on one accessor instance (opened by open) = one case.
 func (c *c05Ctx) history(g *zv.Group, b *c05Block, rep, layer string, reads []c05Read, chunk int, open func() (*c05Env, func())) {
 	c.hist = nil
@@ -854,6 +1001,12 @@ func (c *c05Ctx) history(g *zv.Group, b *c05Block, rep, layer string, reads []c0
 			}
 			c.hist = append(c.hist, rd)
 			o := c.do(b, e, rd)
+			if rd.Kind == "nd" && layer == "plain" {
+				// eds.NamespaceData over a bare accessor: checked against the square and the roots (L3); the model has
+				// this request only on the accessor the store hands out
+				c.r.Count("read", "nd(bare accessor, L3 only)")
+				continue
+			}
 			items = append(items, "("+rd.coqPath()+", "+o+")")
 			c.r.Count("read", rd.Kind)
 			c.r.Count("verdict", map[bool]string{true: "refused", false: "served"}[o == "OErr"])
@@ -863,6 +1016,10 @@ func (c *c05Ctx) history(g *zv.Group, b *c05Block, rep, layer string, reads []c0
 		}
 		closeFn()
 		if len(items) == 0 {
+			continue
+		}
+		if g == nil || (c.l3only != nil && c.l3only(b, rep, layer)) {
+			c.r.Count("l3_only_history", rep+":"+layer)
 			continue
 		}
 		term := fmt.Sprintf("CReads %d %s %s [%s]", b.idx, rep, e.coqLayer(), strings.Join(items, "; "))
@@ -922,7 +1079,56 @@ func c05Specs(r *zv.Run) []c05Spec {
 		}
 		add(16, 1+rng.Intn(254))
 	}
+	// wide squares with a designed layout: eds.NamespaceData fans out over the rows of a namespace, so namespaces that
+	// span exactly 16, exactly 17 and well over 16 rows must be read back whole (seeded change C11-c: rows processed in
+	// batches of 16 with the result written at the position inside the batch)
+	wrng := r.Rand().Fork(0x5c05)
+	widths := []int{32}
+	if r.Thorough() {
+		widths = []int{32, 64}
+	}
+	for _, k := range widths {
+		specs = append(specs, c05WideSpec(wrng, k, "long"), c05WideSpec(wrng, k, "16+17"))
+	}
 	return specs
+}
+
+// c05WideSpec lays out a k-wide square (k >= 32).
+//
+//	"long":  a short first namespace, then one namespace spanning 19..k-3 rows, then a third one, then tail padding
+//	"16+17": a first namespace ending inside row 0, one spanning exactly 16 rows (row 0 .. row 15), one spanning exactly
+//	         17 rows (row 15 .. row 31), then another namespace and/or tail padding
+func c05WideSpec(rng *zv.Rand, k int, kind string) c05Spec {
+	var runs []int
+	switch kind {
+	case "long":
+		first := 1 + rng.Intn(2*k)
+		nrows := 19 + rng.Intn(k-3-19+1)
+		startRow, startCol := first/k, first%k
+		endRow, endCol := startRow+nrows-1, rng.Intn(k)
+		long := endRow*k + endCol + 1 - (startRow*k + startCol)
+		runs = []int{first, long}
+		if rest := k*k - first - long; rest > 1 {
+			runs = append(runs, 1+rng.Intn(rest-1))
+		}
+	default:
+		c0 := 1 + rng.Intn(k-1) // the 16-row namespace starts at (0, c0)
+		c1 := rng.Intn(k - 1)   // and ends at (15, c1), c1 < k-1
+		c2 := rng.Intn(k)       // the 17-row namespace runs from (15, c1+1) to (31, c2)
+		n16 := 15*k + c1 + 1 - c0
+		n17 := 31*k + c2 + 1 - (15*k + c1 + 1)
+		runs = []int{c0, n16, n17}
+		if rest := k*k - c0 - n16 - n17; rest > 1 && rng.Bool() {
+			runs = append(runs, 1+rng.Intn(rest-1))
+		}
+	}
+	sum := 0
+	ss := make([]string, len(runs))
+	for i, n := range runs {
+		sum += n
+		ss[i] = fmt.Sprint(n)
+	}
+	return c05Spec{Seed: rng.U64(), K: k, Pad: k*k - sum, Runs: strings.Join(ss, ",")}
 }
 
 func TestVerifC05(t *testing.T) {
@@ -944,22 +1150,30 @@ func TestVerifC05(t *testing.T) {
 	}
 
 	var blocks []*c05Block
-	perClass := [2][]*c05Block{}
+	// classes of blocks: every class is one group of Coq case files carrying only its own blocks; every wide square
+	// is a class of its own (its literal is large, and the shards are evaluated in parallel)
+	perClass := [][]*c05Block{nil, nil}
+	classNames := []string{"small", "big"}
 	for i, sp := range specs {
 		b, err := c05NewBlock(sp, i)
 		if err != nil {
 			t.Fatalf("building block %+v: %v", sp, err)
 		}
 		b.num = i
-		if b.k > 4 {
+		switch {
+		case b.wide:
+			b.cls = len(perClass)
+			perClass = append(perClass, nil)
+			classNames = append(classNames, fmt.Sprintf("wide%d", b.cls-2))
+		case b.k > 4:
 			b.cls = 1
 		}
 		b.idx = len(perClass[b.cls])
 		perClass[b.cls] = append(perClass[b.cls], b)
 		blocks = append(blocks, b)
 	}
-	var groups [2]*zv.Group
-	for cls, name := range []string{"small", "big"} {
+	groups := make([]*zv.Group, len(perClass))
+	for cls, name := range classNames {
 		var hb strings.Builder
 		hb.WriteString(c05HeaderPrefix)
 		hb.WriteString("Open Scope N_scope.\n")
@@ -970,6 +1184,28 @@ func TestVerifC05(t *testing.T) {
 		}
 		hb.WriteString("Close Scope N_scope.\nDefinition raws : list rawblk := [" + strings.Join(names, ";") + "].\n")
 		groups[cls] = r.Group(name, hb.String(), "ccase", "mismatches_raw raws")
+	}
+
+	// wide squares, quick tier: the model is run on the representations that are cheap to evaluate (ODS-only and Q4-pruned
+	// files, every layer) and on one history each of the in-memory and the ODS+Q4 representation; the other histories of
+	// these squares are L3 only (compared with the square that was put and verified against its roots)
+	sharedPhase := false
+	if !r.Thorough() && !isReplay {
+		c.l3only = func(b *c05Block, rep, layer string) bool {
+			if !b.wide {
+				return false
+			}
+			if sharedPhase {
+				return true
+			}
+			switch rep {
+			case "RepOds", "RepQ4Removed":
+				return false
+			case "RepMem":
+				return layer != "store"
+			}
+			return layer != "getter"
+		}
 	}
 
 	base := t.TempDir()
@@ -1001,9 +1237,18 @@ func TestVerifC05(t *testing.T) {
 		eh := &header.ExtendedHeader{RawHeader: header.RawHeader{Height: int64(height)}, DAH: b.roots}
 		r.Count("width", fmt.Sprint(b.k))
 		r.Count("padding", fmt.Sprintf("k%d:%s", b.k, map[bool]string{true: "none", false: "some"}[b.spec.Pad == 0 && !b.spec.Empty]))
+		for _, ns := range b.nss {
+			r.Count("ns_rows_in_block", fmt.Sprintf("k%d:%s", b.k, c05RowsBucket(len(b.nsRows(ns.Bytes())))))
+		}
+		if b.wide {
+			chunk = 64 // one history per accessor instance
+		}
 		rds := func(plain bool) []c05Read {
 			if isReplay {
 				return replay.Reads
+			}
+			if b.wide {
+				return b.wideReads(rng, r.N(16, 160), plain)
 			}
 			return b.reads(rng, exhaustive, budget, plain)
 		}
@@ -1164,11 +1409,19 @@ func TestVerifC05(t *testing.T) {
 					r.Violation("put-failed", fmt.Sprintf("PutODSQ4(shared) k=%d pad=%d: %v", b.k, b.spec.Pad, err), map[string]any{"spec": b.spec})
 					continue
 				}
+				sharedPhase = true
 				few := b.reads(rng, false, 40, false)
+				if b.wide {
+					few = b.wideReads(rng, 8, false)
+				}
 				c.history(g, b, "RepMem", "store", few, chunk, byHeight(shared))
 				if prev != nil {
 					ph := uint64(100 + prev.num)
-					c.history(groups[prev.cls], prev, "RepOdsQ4", "store", prev.reads(rng, false, 40, false), chunk, func() (*c05Env, func()) {
+					prevReads := prev.reads(rng, false, 40, false)
+					if prev.wide {
+						prevReads = prev.wideReads(rng, 8, false)
+					}
+					c.history(groups[prev.cls], prev, "RepOdsQ4", "store", prevReads, chunk, func() (*c05Env, func()) {
 						acc, err := shared.GetByHeight(ctx, ph)
 						if err != nil {
 							return nil, nil
@@ -1177,6 +1430,7 @@ func TestVerifC05(t *testing.T) {
 					})
 				}
 				prev = b
+				sharedPhase = false
 			}
 		}
 	}
